@@ -48,6 +48,8 @@ struct MTopic {
     msgs: Vec<Vec<Vec<u8>>>,
     /// consumer offsets stored on partition 1: (is_group, consumer / group id) -> offset
     offsets: BTreeMap<(bool, u32), u64>,
+    /// compression setting (true = gzip, false = none)
+    gzip: bool,
 }
 
 #[derive(Debug, Clone)]
